@@ -191,6 +191,15 @@ inline void runInterleaving(Ctx& c, const History& h, const std::vector<int>& or
         fed.push_back(f.raw);
         ilHash = mix64(ilHash, static_cast<uint64_t>(ep) * 131 + f.completes.size());
         c.note("history=" + describeFrames(fed, fed.size() - 1));
+        if (step % 13 == 12)
+        {
+            // continue on a copy of the decoder (copy-construct + copy-assign): pending reassemblies are part of its value
+            ASAM::CMP::Decoder copy(dec);
+            ASAM::CMP::Decoder other;
+            other = copy;
+            dec = other;
+            c.count("decoder_copies");
+        }
         auto got = decodeCopy(dec, f.raw);
         auto model = ref.feed(f.raw);
         ++c.evaluations;
